@@ -106,7 +106,9 @@ template <class E, class C> void indices_family()
         VRT_CHECK(op.has_value(), nm + ":missing", "nothing returned for a container of size %d", n);
         if (!op.has_value())
           continue;
-        lockstep<E>(nm, op.get_unsafe(), std::uniform_int_distribution<size_type>(lo, hi), seed, true, lo, hi, no_two_arg{});
+        P const q{typename P::min(hi), typename P::max(hi)}; // stored while drawing with the factory's parameters per call
+        lockstep<E>(nm, op.get_unsafe(), std::uniform_int_distribution<size_type>(lo, hi), seed, true, lo, hi, no_two_arg{}, q,
+                    std::uniform_int_distribution<size_type>(hi, hi), hi, hi);
       }
       fcppt::optional::object<P> const op(make(c));
       if (op.has_value())
@@ -365,6 +367,10 @@ template <class E> void param_set_family()
             rn.param(std::normal_distribution<double>::param_type(static_cast<double>(i2[0]) / 4., 1. + (i2[1] & 7)));
             dn.param(PN(PN::mean(static_cast<double>(i2[0]) / 4.), PN::stddev(1. + (i2[1] & 7))));
             VRT_CHECK(d.min() == i2[0] && d.max() == i2[1], nm + ":min_max", "min/max after param(): %d/%d", d.min(), d.max());
+            VRT_CHECK(d.param().convert_from() == rd.param(), nm + ":param_getter_after_set",
+                      "uniform_int: param() after param(set) is not what was set");
+            VRT_CHECK(dn.param().convert_from() == rn.param(), nm + ":param_getter_after_set",
+                      "normal: param() after param(set) is not what was set");
           }
           int const lo = i < 5 ? i1[0] : i2[0], hi = i < 5 ? i1[1] : i2[1];
           int const w = rd(ref), x = d(g);
